@@ -40,6 +40,10 @@ func c10Gen(r *rand.Rand, n int, tier string) []c10In {
 	for i, b := range bad {
 		out = append(out, c10In{Server: "2.10.3", Route: c10Routes[i%4], HasClient: true, ClientVers: b})
 	}
+	// the same malformations applied to the server's own version: a near miss of an otherwise compatible version
+	for i, b := range c10Near("2.10.3") {
+		out = append(out, c10In{Server: "2.10.3", Route: c10Routes[i%4], HasClient: true, ClientVers: b})
+	}
 	for _, rt := range c10Routes {
 		out = append(out, c10In{Server: "2.10.3", Route: rt, HasClient: false})
 		out = append(out, c10In{Server: "2.10.3", Route: rt, HasClient: true, ClientVers: "2.10.99"})
@@ -57,8 +61,14 @@ func c10Gen(r *rand.Rand, n int, tier string) []c10In {
 		switch r.Intn(10) {
 		case 0:
 			in.HasClient = false
-		case 1, 2:
+		case 1:
 			in.HasClient, in.ClientVers = true, bad[r.Intn(len(bad))]
+		case 2:
+			in.HasClient, in.ClientVers = true, bad[r.Intn(len(bad))]
+			if in.Server != "" {
+				nm := c10Near(in.Server)
+				in.ClientVers = nm[r.Intn(len(nm))]
+			}
 		case 3, 4, 5:
 			in.HasClient = true
 			if in.Server != "" { // same major.minor, other patch
@@ -81,6 +91,24 @@ func c10Gen(r *rand.Rand, n int, tier string) []c10In {
 		out = append(out, in)
 	}
 	return out
+}
+
+// c10Near returns non-canonical spellings that differ from the canonical version v (MAJOR.MINOR.PATCH) in one
+// component or at one edge only, so that every prefix / suffix / component shortcut in the gate is probed with a
+// string that is malformed but otherwise looks compatible.
+func c10Near(v string) []string {
+	p := strings.Split(v, ".")
+	if len(p) != 3 {
+		return []string{v + "."}
+	}
+	M, m, pt := p[0], p[1], p[2]
+	j := func(a, b, c string) string { return a + "." + b + "." + c }
+	return []string{
+		j(M, m, "0"+pt), j(M, m, "00"), j(M, m, ""), j(M, m, pt+"-rc1"), j(M, m, pt+"+b"), j(M, m, pt+" "), j(M, m, pt+"\n"),
+		j(M, m, pt) + ".", j(M, m, pt) + ".0", j(M, m, "x"), j(M, m, "+"+pt), j(M, m, "-"+pt), j(M, m, " "+pt),
+		j("0"+M, m, pt), j(M, "0"+m, pt), j(" "+M, m, pt), j("+"+M, m, pt), j(M, "", pt), j("", m, pt), j(M, m+" ", pt),
+		M + "." + m, M + "." + m + pt, M + m + "." + pt, M + "," + m + "," + pt, "v" + v, strings.Replace(v, ".", "..", 1),
+	}
 }
 
 func c10Verdict(msg string) string {
